@@ -47,7 +47,7 @@ Definition amem {A} (k : Z) (l : list (Z * A)) : bool :=
   match alookup k l with Some _ => true | None => false end.
 
 (* ---- feature numbers (alphabetical rank in harness/c01.py:FEATS) -------- *)
-Definition NFEAT : nat := 20.
+Definition NFEAT : nat := 23.
 Definition F_CONTOUR := 3.
 Definition F_FL1MAX := 5.
 Definition F_FL1NPEAKS := 6.
@@ -57,7 +57,11 @@ Definition F_FRAME := 9.
 Definition F_IMAGE := 10.
 Definition F_INDEX := 12.
 Definition F_MASK := 13.
-Definition F_TRACE := 16.
+Definition F_QPI_AMP := 15.
+Definition F_QPI_OAH := 16.
+Definition F_QPI_PHA := 17.
+Definition F_IMAGE_BG := 11.
+Definition F_TRACE := 19.
 Definition NTRACE : nat := 6.
 Definition NLOG : nat := 4.
 Definition NTABLE : nat := 3.
@@ -245,7 +249,10 @@ Inductive op :=
                               (* store_feature("trace", {name: 2-d array}) *)
 | OLog (name : Z) (lines : list row)
 | OTable (name : Z) (cols : list Z) (rows : list (list Z))
-| OMeta (kvs : list (Z * Z)).
+| OMeta (kvs : list (Z * Z))
+| OArr (f : Z) (isbool : bool) (shape dshape : list Z) (itemsize : Z) (flat : list Z).
+                              (* store_feature(image-like or user-shaped feature, array of
+                                 shape dshape given by its C-order values, shape=shape) *)
 
 Definition nonempty {A} (l : list A) : bool := match l with [] => false | _ => true end.
 
@@ -272,6 +279,38 @@ Definition store_image (w : wr) (s : file) (f : Z) (isbool : bool) (shape : list
   if nonempty data then
     (with_nd s (aset f (write_nd (w_csb w) (alookup f ndl) shape itemsize data') ndl), false)
   else (with_nd s ndl, true).
+
+(* the events of an array as store_feature sees them.
+   image-like features (write_image_grayscale / write_image_float32): a 2-d
+   array is one event; user-shaped features: `shape == data.shape` is one
+   event, `shape == data.shape[1:]` many, anything else raises (no events) *)
+Definition image_like (f : Z) : bool :=
+  (f =? F_IMAGE) || (f =? F_IMAGE_BG) || (f =? F_MASK) || (f =? F_QPI_AMP)
+  || (f =? F_QPI_OAH) || (f =? F_QPI_PHA).
+
+Fixpoint list_eqb (a b : list Z) : bool :=
+  match a, b with
+  | [], [] => true
+  | x :: a', y :: b' => (x =? y) && list_eqb a' b'
+  | _, _ => false
+  end.
+
+Fixpoint split_rows (n len : nat) (flat : list Z) : list row :=
+  match n with
+  | O => []
+  | S n' => firstn len flat :: split_rows n' len (skipn len flat)
+  end.
+
+Definition arr_shape (f : Z) (shape dshape : list Z) : list Z :=
+  if image_like f then (if Z.of_nat (length dshape) =? 2 then dshape else tl dshape)
+  else shape.
+
+Definition arr_events (f : Z) (shape dshape : list Z) (flat : list Z) : list row :=
+  let shp := arr_shape f shape dshape in
+  if list_eqb shp dshape then [flat]               (* data.reshape(1, *shape) *)
+  else if list_eqb shp (tl dshape)
+       then split_rows (Z.to_nat (hd 0 dshape)) (Z.to_nat (prodZ shp)) flat
+       else [].                                     (* ValueError("Bad shape") *)
 
 Definition store_contour (w : wr) (s : file) (data : list row) : wr * file :=
   (* replace: the group is deleted; require_group then creates a new group
@@ -401,6 +440,9 @@ Definition step (s : state) (o : op) : state * bool :=
                                     (f_logs f)) |}, false)
   | OTable name cols rows => set_file s (store_table f name cols rows)
   | OMeta kvs => ({| st_w := w; st_f := store_meta f kvs |}, false)
+  | OArr ft isbool shape dshape isz flat =>
+      set_file s (store_image w f ft isbool (arr_shape ft shape dshape) isz
+                              (arr_events ft shape dshape flat))
   end.
 
 Fixpoint run (s : state) (ops : list op) : state :=
@@ -490,6 +532,10 @@ Fixpoint spec_nd (f : Z) (mode : Z) (acc : list row) (ops : list op) : list row 
   | [] => acc
   | OOpen m :: r => spec_nd f m (if m =? 2 then [] else acc) r
   | OImage g _ _ _ data :: r =>
+      if g =? f then spec_nd f mode (upd mode acc (if f =? F_MASK then as_bool data else data)) r
+      else spec_nd f mode acc r
+  | OArr g _ shape dshape _ flat :: r =>
+      let data := arr_events g shape dshape flat in
       if g =? f then spec_nd f mode (upd mode acc (if f =? F_MASK then as_bool data else data)) r
       else spec_nd f mode acc r
   | _ :: r => spec_nd f mode acc r
